@@ -653,10 +653,27 @@ def eval_char_pred(g, ch, fuel=400):
     char classification calls).  Raises AnchorMissing on anything else (fail closed)."""
     import unicodedata
     env = {g.argc: ord(ch)}        # the last argument is the char (argument 1 is the closure environment)
-    known = {"is_control": lambda v: unicodedata.category(chr(v)) == "Cc",
-             "is_whitespace": lambda v: chr(v).isspace(), "is_ascii": lambda v: v < 128,
+    def cat(v):
+        return unicodedata.category(chr(v))
+
+    def ws(v):      # Unicode White_Space (what char::is_whitespace tests)
+        return v in (9, 10, 11, 12, 13, 32, 0x85, 0xA0, 0x1680, 0x2028, 0x2029, 0x202F, 0x205F, 0x3000) or 0x2000 <= v <= 0x200A
+    known = {"is_control": lambda v: cat(v) == "Cc",
+             "is_whitespace": ws,
+             "is_alphabetic": lambda v: chr(v).isalpha() or cat(v) == "Nl",
+             "is_numeric": lambda v: cat(v) in ("Nd", "Nl", "No"),
+             "is_alphanumeric": lambda v: chr(v).isalpha() or cat(v) in ("Nd", "Nl", "No"),
+             "is_lowercase": lambda v: chr(v).islower(), "is_uppercase": lambda v: chr(v).isupper(),
+             "is_ascii": lambda v: v < 128,
              "is_ascii_control": lambda v: v < 32 or v == 127,
-             "is_alphanumeric": lambda v: chr(v).isalnum(), "is_ascii_graphic": lambda v: 33 <= v <= 126}
+             "is_ascii_graphic": lambda v: 33 <= v <= 126,
+             "is_ascii_alphabetic": lambda v: 65 <= v <= 90 or 97 <= v <= 122,
+             "is_ascii_uppercase": lambda v: 65 <= v <= 90, "is_ascii_lowercase": lambda v: 97 <= v <= 122,
+             "is_ascii_digit": lambda v: 48 <= v <= 57,
+             "is_ascii_hexdigit": lambda v: 48 <= v <= 57 or 65 <= v <= 70 or 97 <= v <= 102,
+             "is_ascii_alphanumeric": lambda v: 48 <= v <= 57 or 65 <= v <= 90 or 97 <= v <= 122,
+             "is_ascii_punctuation": lambda v: 33 <= v <= 47 or 58 <= v <= 64 or 91 <= v <= 96 or 123 <= v <= 126,
+             "is_ascii_whitespace": lambda v: v in (9, 10, 12, 13, 32)}
 
     def val(op):
         if "c" in op:
@@ -713,42 +730,87 @@ def eval_char_pred(g, ch, fuel=400):
     raise mir.AnchorMissing(f"{g.path}: evaluation did not terminate")
 
 
-def binary_heuristic_rule(rep, B, f, ctx, blocks):
-    """Other tests between the comparison and the line-ending message: an `Iterator::any(pred)` over the chars of the
-    file must be taken on its false edge, and `pred` must be false for CR, LF, TAB and a letter - otherwise a text file
-    with CRLF line endings can never reach the message."""
+# representative characters of a valid UTF-8 *text* file: each must pass whatever text-ness test guards the message
+TEXT_EOL = [("\r", "CR"), ("\n", "LF"), ("\t", "TAB")]
+TEXT_ASCII = [(ch, repr(ch)) for ch in " aZq07.,;:!?'\"`-_/\\|@#$%^&*+=~()[]{}<>"]
+TEXT_NON_ASCII = [("\u00e9", "e-acute U+00E9"), ("\u00b0", "degree sign U+00B0"), ("\u2014", "em dash U+2014"),
+                  ("\u4e2d", "CJK U+4E2D"), ("\u00a0", "no-break space U+00A0"), ("\u00df", "sharp s U+00DF"),
+                  ("\u03bb", "Greek lambda U+03BB"), ("\u2192", "arrow U+2192"), ("\u201c", "curly quote U+201C"),
+                  ("\U0001f600", "emoji U+1F600")]
+STR_CHARS = re.compile(r"\bstr>?::chars$")
+
+
+def text_reaches_message_rule(rep, B, f, ctx, blocks):
+    """`A file that differs from the expected output only in line endings and is valid UTF-8 text reaches the
+    line-ending message`: every condition between the comparison and the message must be one a text file satisfies.
+    Recognised: from_utf8(..) is Ok, lines().eq(lines()) (R33.4 proper), and a per-character test
+    `chars().any(pred)` / `chars().all(pred)` whose predicate is evaluated on its MIR for representative text characters
+    (ASCII and non-ASCII).  Anything else fails closed."""
+    fn = short(f.npath)
+    after_cmp = set()
+    for _, _, d, _, _ in ctx.cmps:
+        after_cmp |= f.reachable(d)
     seen = set()
+    ntests = 0
     for b in blocks:
         for gsw, vals, o in f.guard_edges(b):
-            o, n2 = strip_not(o)
-            if o.get("kind") != "call" or not o["call"].matches("Iterator::any") or gsw in seen:
+            if gsw in seen or gsw not in after_cmp:
                 continue
             seen.add(gsw)
+            if o.get("kind") == "discr":
+                of = o.get("of", {})
+                names = {o["vars"].get(v) for v in vals if v != "else"} | \
+                    ({n for v, n in o["vars"].items() if v not in f.switch_targets(gsw)} if "else" in vals else set())
+                ok = of.get("kind") == "call" and of["call"].matches("str::from_utf8") and names == {"Ok"}
+                rep.ob("R33.4", f"{fn}: conditions before the line-ending message hold for every UTF-8 text file "
+                                f"(enum test is `from_utf8(..)` = Ok)", ok,
+                       f"the message additionally requires {o.get('ty')} to be {sorted(map(str, names))}", f.loc(gsw))
+                continue
+            o, n2 = strip_not(o)
+            pol = edge_polarity(vals, n2)
+            if o.get("kind") == "call" and o["call"].matches("Iterator::eq"):
+                continue        # the lines().eq(lines()) test itself
+            adaptor = None
+            if o.get("kind") == "call":
+                adaptor = "any" if o["call"].matches("Iterator::any") else "all" if o["call"].matches("Iterator::all") else None
+            if adaptor is None:
+                what = short(mir.norm(o["call"].callee)) if o.get("kind") == "call" else o.get("kind")
+                rep.ob("R33.4", f"{fn}: conditions before the line-ending message hold for every UTF-8 text file "
+                                f"(only from_utf8 / chars().any / chars().all / lines().eq are understood)", False,
+                       f"unrecognised condition on `{what}`: cannot establish that a text file with CRLF line endings "
+                       f"reaches the message", f.loc(gsw))
+                continue
+            ntests += 1
             ac = o["call"]
-            rep.ob("R33.4", f"{short(f.npath)}: the line-ending message requires `any(binary-looking char)` = false",
-                   edge_polarity(vals, n2) is False, "the message is only reachable for files with control characters",
-                   f.loc(gsw))
+            # a text file satisfies `any(p) == false` iff p is false for all its chars, `all(p) == true` iff p is true for all
+            want_edge = (adaptor == "all")
+            rep.ob("R33.4", f"{fn}: the per-character text test is required with the outcome a text file produces "
+                            f"(`any` = false or `all` = true)", pol is want_edge,
+                   f"the message requires chars().{adaptor}(..) = {str(pol).lower()}: only files that contain a rejected "
+                   f"character (or none at all) can reach it", f.loc(gsw))
             src = [x for x, _ in chain(f, ac.args[0])[0]]
-            rep.ob("R33.4", f"{short(f.npath)}: the binary-looking test scans the chars of the file read",
-                   any(x.matches(re.compile(r"\bstr>?::chars$")) for x in src) and
-                   any(x.bb == r.bb for x in src for r in ctx.reads), "", f.loc(ac.bb))
+            rep.ob("R33.4", f"{fn}: the per-character text test scans the chars of the file read (or of the generated text)",
+                   any(x.matches(STR_CHARS) for x in src) and
+                   (any(x.bb == r.bb for x in src for r in ctx.reads) or ctx.view_contents(ac.args[0])), "", f.loc(ac.bb))
             po = f.origin(ac.args[1]) if len(ac.args) > 1 else {}
             name = po.get("rv", {}).get("closure") if po.get("kind") == "agg" else po.get("fn")
             preds = B.by_name.get(mir.norm(name), []) if name else []
             if len(preds) != 1:
-                rep.ob("R33.4", f"{short(f.npath)}: the binary-looking predicate is a closure / fn of the CLI crate", False,
+                rep.ob("R33.4", f"{fn}: the per-character predicate is a closure / fn of the CLI crate", False,
                        f"{name}", f.loc(ac.bb))
                 continue
             g = preds[0]
             rep.saw(g)
-            for ch, nm in (("\r", "CR"), ("\n", "LF"), ("\t", "TAB"), ("a", "a letter")):
-                rep.ob("R33.4", f"{short(f.npath)}: {nm} does not count as a binary-looking character",
-                       eval_char_pred(g, ch) is False,
-                       "a text file containing this character is treated as binary: a CRLF-only difference is then "
-                       "reported as a generic `not up to date`", g.loc())
-            rep.ob("R33.4", f"{short(f.npath)}: NUL counts as a binary-looking character", eval_char_pred(g, "\0") is True,
-                   "", g.loc())
-    return len(seen)
+            passes = (lambda ch: eval_char_pred(g, ch) is want_edge)      # what keeps the file `text`
+            for title, chars in (("CR, LF and TAB count as text", TEXT_EOL),
+                                 ("ASCII letters, digits, punctuation and space count as text", TEXT_ASCII),
+                                 ("non-ASCII text characters (accented letters, symbols, CJK, U+00A0, emoji) count as text",
+                                  TEXT_NON_ASCII)):
+                bad = [nm for ch, nm in chars if not passes(ch)]
+                rep.ob("R33.4", f"{fn}: {title}", not bad,
+                       f"treated as binary: {', '.join(bad)} - a UTF-8 text file containing such a character and differing "
+                       f"only in line endings is reported as a generic `not up to date`", g.loc())
+    return ntests
 
 
 def crlf_rule(rep, B, ctxs):
@@ -814,8 +876,8 @@ def crlf_rule(rep, B, ctxs):
             rep.ob("R33.4", f"{short(f.npath)}: the line-ending message is reached only through "
                             f"`prev.lines().eq(contents.lines())` = true", not badv,
                    badv[0][1] if badv else "", f.loc(badv[0][2] if badv else blocks[0]))
-            rep.guard("R33.4", f"binary heuristic of {short(f.npath)}",
-                      lambda f=f, ctx=ctx, blocks=blocks: binary_heuristic_rule(rep, B, f, ctx, blocks))
+            rep.guard("R33.4", f"text reaches the message in {short(f.npath)}",
+                      lambda f=f, ctx=ctx, blocks=blocks: text_reaches_message_rule(rep, B, f, ctx, blocks))
             # the message sits on the `differs` side of the comparison
             rep.ob("R33.4", f"{short(f.npath)}: the line-ending message is on the `bytes differ` side",
                    bool(ctx.cmps) and all(any(b in f.reachable(d) and b not in f.reachable(e, avoid=ctx.succ)
@@ -1045,8 +1107,12 @@ def run(rep, tier):
         "the two guarded ones in main. R33.7: child processes in reachable generator code are the known formatters, spawned "
         "without arguments. R33.8: clap declares `check` with ArgAction::SetTrue. Also: the loop walks Files::iter of the "
         "one file set handed to the generator with no skipping adaptor, the holder's Err reaches main's Result (or a "
-        "non-zero exit / panic), the destination path has no definition guarded by the flag, and the `binary-looking "
-        "character` predicate (evaluated on its MIR) is false for CR, LF, TAB and letters and taken on its false edge. "
+        "non-zero exit / panic), the destination path has no definition guarded by the flag, and every condition between "
+        "the comparison and the line-ending message is one a valid UTF-8 text file satisfies: from_utf8 = Ok, "
+        "lines().eq(lines()), and a per-character test chars().any(p) = false / chars().all(p) = true whose predicate p "
+        "(a closure or fn of the CLI crate, evaluated by a small MIR interpreter) classifies CR, LF, TAB, ASCII "
+        "printables, space and representative non-ASCII characters (accented letters, symbols, CJK, U+00A0, emoji) as "
+        "text; any other condition fails closed. "
         "The read + comparison may live in a CLI-crate helper called from the check region (Result-returning). NOT decided: that `lines()` equality is the right notion of a line-ending-only difference "
         "(a missing final newline or a file with control characters is reported differently), behaviour of the file "
         "system between read and compare, what external formatters or third-party crates do, the `test` subcommand "
